@@ -34,6 +34,8 @@ func genCmdCase(r *Rand, form string, sz caseSize) *Case {
 		sp := samSpec{L: L, Queries: nrec, MaxRecs: 3, Overlap: form == "toma", Ins: 0.05, Del: 0.04, Skip: 0.02, Junk: 0.1, Clip: 0.2, InsDisjoint: true}
 		if form == "toma" {
 			sp.DelFlip, sp.Conflict = 0.05, 0.05
+		} else {
+			sp.EdgeIns = 0.08
 		}
 		sc := genSam(r, sp)
 		c.Files["sam"] = sc.Text()
